@@ -2,8 +2,10 @@ package c19
 
 import (
 	"bytes"
+	cryptorand "crypto/rand"
 	"encoding/hex"
 	"fmt"
+	"io"
 	"math/big"
 	mathrand "math/rand"
 	"os"
@@ -34,6 +36,7 @@ type Case struct {
 	Seed            int64  // value the process-global math/rand is seeded with (reseed kinds)
 	G               int32
 	Password        string
+	StallMs         int            `json:",omitempty"` // stalled-os-source: delay of every read of the OS source
 	SecureRandomLen int            `json:",omitempty"` // srp-distinct: length of the server's secure_random
 	Prime           string         `json:",omitempty"` // reseed-exponent-params: dh_prime (hex) as a server may send it; the client does not validate it
 	GA              string         `json:",omitempty"`
@@ -126,6 +129,43 @@ func oracle(c *Case) error {
 			x2, _ := get()
 			if bytes.Equal(x1, x2) {
 				return fmt.Errorf("SRP ephemeral is reproducible: seeding the process-global math/rand with %d yields the same A = g^a twice", c.Seed)
+			}
+		case "stalled-os-source":
+			// fault injection on the OS random source: every read stalls for c.StallMs before it is served. A client that
+			// waits gets OS bytes; one that gives up and falls back to a generator of its own is reproducible again.
+			real := cryptorand.Reader
+			cryptorand.Reader = stallReader{real, time.Duration(c.StallMs) * time.Millisecond}
+			defer func() { cryptorand.Reader = real }()
+			draw := func() (string, error) {
+				type out struct{ v string }
+				ch := make(chan out, 1)
+				go func() {
+					mathrand.Seed(c.Seed) //nolint:staticcheck
+					n1, n2 := tl.RandomInt128(), tl.RandomInt256()
+					ga := new(big.Int).Exp(big.NewInt(int64(c.G)), big.NewInt(c.Seed|1), ref.DHPrime)
+					b, _, _ := imath.MakeGAB(c.G, ga, ref.DHPrime)
+					ch <- out{fmt.Sprintf("%x|%x|%x", n1.Int, n2.Int, b)}
+				}()
+				select {
+				case o := <-ch:
+					return o.v, nil
+				case <-time.After(time.Duration(20*c.StallMs+5000) * time.Millisecond):
+					return "", fmt.Errorf("INFRA: draws did not return under a stalled source")
+				}
+			}
+			v1, err := draw()
+			if err != nil {
+				return err
+			}
+			v2, err := draw()
+			if err != nil {
+				return err
+			}
+			p1, p2 := strings.Split(v1, "|"), strings.Split(v2, "|")
+			for i, name := range []string{"nonce", "new_nonce", "the DH exponent b"} {
+				if p1[i] == p2[i] {
+					return fmt.Errorf("%s is reproducible when the OS random source stalls for %d ms per read: reseeding the process-global math/rand with %d yields the same value twice (%s…)", name, c.StallMs, c.Seed, p1[i][:16])
+				}
 			}
 		case "srp-distinct":
 			// everything the server supplies with the password parameters - in particular its secure_random bytes, of any
@@ -271,6 +311,33 @@ func TestC19(t *testing.T) {
 		}
 		return
 	}
+	t.Run("stalled-os-source", func(t *testing.T) {
+		nsh := hx.NShards()
+		var n int64
+		stalls := []int{20, 300, 1100}
+		if run.Thorough() {
+			stalls = append(stalls, 2500, 5200)
+		}
+		for i, ms := range stalls {
+			if i%nsh != run.Shard%nsh {
+				continue
+			}
+			c := &Case{Kind: "stalled-os-source", Seed: int64(run.Seed)*10 + int64(i), G: 3, StallMs: ms}
+			run.Case(true, evid.Hash(c.Kind, c.Seed, c.StallMs), "kind:"+c.Kind, fmt.Sprintf("stall=%dms", ms))
+			n++
+			if err := oracle(c); err != nil {
+				if strings.HasPrefix(err.Error(), "INFRA:") {
+					t.Fatalf("%v", err)
+				}
+				p := run.ViolationNamed(fmt.Sprintf("stall-%dms", ms), c, err.Error())
+				t.Errorf("violation (replay %s): %v", p, err)
+			}
+		}
+		run.Exhaustive("OS random source stalled for {20,300,1100} ms per read, thorough also {2500,5200} (this shard's share)", n)
+	})
+	if t.Failed() {
+		return
+	}
 	t.Run("srp-secure-random-lengths", func(t *testing.T) {
 		nsh := hx.NShards()
 		var n int64
@@ -334,8 +401,10 @@ func TestC19(t *testing.T) {
 	t.Run("generated", func(t *testing.T) {
 		rapid.Check(t, func(t *rapid.T) {
 			c := &Case{Seed: rapid.OneOf(rapid.SampledFrom([]int64{0, 1, 42, -1, 1 << 40}), rapid.Int64()).Draw(t, "seed"), G: rapid.SampledFrom([]int32{3, 4, 7}).Draw(t, "g")}
-			c.Kind = rapid.SampledFrom([]string{"reseed-nonces", "reseed-nonces", "clock-nonce", "clock-exponent", "clock-exponent", "reseed-srp", "reseed-exchange", "reseed-exponent-params", "reseed-exponent-params", "srp-distinct"}).Draw(t, "kind")
+			c.Kind = rapid.SampledFrom([]string{"reseed-nonces", "reseed-nonces", "clock-nonce", "clock-exponent", "clock-exponent", "reseed-srp", "reseed-exchange", "reseed-exponent-params", "reseed-exponent-params", "srp-distinct", "stalled-os-source"}).Draw(t, "kind")
 			switch c.Kind {
+			case "stalled-os-source":
+				c.StallMs = rapid.SampledFrom([]int{1, 50, 300, 1100}).Draw(t, "stall")
 			case "srp-distinct":
 				c.Password = rapid.StringN(1, 12, 40).Draw(t, "password")
 				c.SecureRandomLen = rapid.SampledFrom([]int{0, 1, 1, 2, 3, 16, 255, 256, 257, 1024}).Draw(t, "srlen")
@@ -370,7 +439,7 @@ func TestC19(t *testing.T) {
 				sc.ReseedGlobal = &seed
 				c.Scenario = sc
 			}
-			run.Case(true, evid.Hash(c.Kind, c.Seed, c.G, c.Password, c.Prime, c.GA, c.SecureRandomLen), "kind:"+c.Kind)
+			run.Case(true, evid.Hash(c.Kind, c.Seed, c.G, c.Password, c.Prime, c.GA, c.SecureRandomLen, c.StallMs), "kind:"+c.Kind)
 			run.Sample(map[string]any{"kind": c.Kind, "seed": c.Seed, "g": c.G})
 			if err := oracle(c); err != nil {
 				if strings.HasPrefix(err.Error(), "INFRA:") {
@@ -380,4 +449,15 @@ func TestC19(t *testing.T) {
 			}
 		})
 	})
+}
+
+// stallReader serves the OS source's bytes, late.
+type stallReader struct {
+	r io.Reader
+	d time.Duration
+}
+
+func (s stallReader) Read(p []byte) (int, error) {
+	time.Sleep(s.d)
+	return s.r.Read(p)
 }
